@@ -69,7 +69,21 @@ def c13(chk, tier):
     rules_mem.r_array(P(), chk, only_units={"transclude.c"})
 
 
+def c18(chk, tier):
+    chk.explanation = "Static: R-POOL structure of object_pool.c / token.c and counter abstraction over main's CFG."
+    rules_misc.r_pool(P(), chk)
+
+
+def c15(chk, tier):
+    chk.explanation = "Static: R-ENUM compile-fail witnesses, R-LINK chain discipline, R-TYPEWRITE value origins."
+    rules_misc.r_enum(P(), chk)
+    rules_misc.r_link(P(), chk)
+    rules_mem.type_field_invariant(P(), chk)
+
+
 PROPS = {
+    "C15": ("other", c15),
+    "C18": ("other", c18),
     "C07": ("other", c07),
     "C13": ("other", c13),
     "C19": ("other", c19),
